@@ -112,9 +112,25 @@ inductive Op where
   | file_read_all | file_read_bs | file_read_buf | file_write | file_close_twice | file_seek
   | file_read_lines | file_iter | file_stdout_write | gf_read | gf_stat | gf_seek
   | gf_name | os_exit | os_exit_0 | os_exit_3 | os_exit_err | os_exit_bad
+  -- arguments with shell metacharacters (wildcards, $NAME, ${NAME}, ~): one per path-taking function and shape
+  | sh_cd_star | sh_cd_quest | sh_cd_bracket | sh_cd_env | sh_cd_envb | sh_cd_envhost
+  | sh_cd_tilde | sh_cd_rel | sh_ls_star | sh_ls_quest | sh_ls_bracket | sh_ls_env
+  | sh_ls_envb | sh_ls_envhost | sh_ls_tilde | sh_ls_rel | sh_cat_star | sh_cat_quest
+  | sh_cat_bracket | sh_cat_env | sh_cat_envb | sh_cat_envhost | sh_cat_tilde | sh_cat_rel
+  | sh_cp_src_star | sh_cp_src_quest | sh_cp_src_bracket | sh_cp_src_env | sh_cp_src_envb | sh_cp_src_envhost
+  | sh_cp_src_tilde | sh_cp_src_rel | sh_cp_dst_star | sh_cp_dst_quest | sh_cp_dst_bracket | sh_cp_dst_env
+  | sh_cp_dst_envb | sh_cp_dst_envhost | sh_cp_dst_tilde | sh_cp_dst_rel | sh_bopen_star | sh_bopen_quest
+  | sh_bopen_bracket | sh_bopen_env | sh_bopen_envb | sh_bopen_envhost | sh_bopen_tilde | sh_bopen_rel
+  | sh_os_chdir_star | sh_os_chdir_quest | sh_os_chdir_bracket | sh_os_chdir_env | sh_os_chdir_envb | sh_os_chdir_envhost
+  | sh_os_chdir_tilde | sh_os_chdir_rel | sh_os_read_dir_star | sh_os_read_dir_quest | sh_os_read_dir_bracket | sh_os_read_dir_env
+  | sh_os_read_dir_envb | sh_os_read_dir_envhost | sh_os_read_dir_tilde | sh_os_read_dir_rel | sh_os_read_file_star | sh_os_read_file_quest
+  | sh_os_read_file_bracket | sh_os_read_file_env | sh_os_read_file_envb | sh_os_read_file_envhost | sh_os_read_file_tilde | sh_os_read_file_rel
+  | sh_os_open_star | sh_os_open_quest | sh_os_open_bracket | sh_os_open_env | sh_os_open_envb | sh_os_open_envhost
+  | sh_os_open_tilde | sh_os_open_rel | sh_os_stat_star | sh_os_stat_quest | sh_os_stat_bracket | sh_os_stat_env
+  | sh_os_stat_envb | sh_os_stat_envhost | sh_os_stat_tilde | sh_os_stat_rel
   deriving DecidableEq, Repr
 
-def allOps : List Op := [.os_args, .os_chdir, .cd, .os_chdir_bad, .os_create, .os_create_bad, .os_current_user, .os_environ, .os_getenv, .getenv, .os_getenv_unset, .os_getenv_bad, .os_getpid, .os_getuid, .os_getwd, .os_hostname, .os_lookup_gid, .os_lookup_gid_missing, .os_lookup_group, .os_lookup_group_missing, .os_lookup_uid, .os_lookup_uid_missing, .os_lookup_user, .os_lookup_user_missing, .os_mkdir, .os_mkdir_perm, .os_mkdir_bad, .os_mkdir_all, .os_mkdir_all_perm, .os_mkdir_temp, .os_mkdir_temp_dir, .os_open, .bopen, .os_open_missing, .os_read_dir0, .os_read_dir, .ls0, .ls, .os_read_dir_missing, .os_read_file, .os_read_file_missing, .os_remove, .os_remove_missing, .os_remove_all, .os_rename, .os_rename_bad, .os_setenv, .setenv, .os_setenv_new, .os_stat, .os_stat_missing, .os_symlink, .os_temp_dir, .os_unsetenv, .unsetenv, .os_user_cache_dir, .os_user_config_dir, .os_user_home_dir, .os_write_file, .os_write_file_perm, .os_write_file_bytes, .os_write_file_over, .os_write_file_bad, .os_stdout_write, .os_stderr_write, .os_stdin_read, .os_stdout_attr, .cat, .cat1, .cat_missing, .cat_bad, .cp, .cp_over, .cp_missing, .fp_abs_rel, .fp_abs_abs, .fp_base, .fp_clean, .fp_dir, .fp_ext, .fp_is_abs, .fp_join, .fp_match, .fp_rel, .fp_split, .fp_split_list, .fp_walk_dir, .fp_walk_dir_missing, .fp_walk_dir_bad, .printf, .fmt_printf, .printf_bad, .print, .print0, .fmt_println, .fmt_errorf, .errorf, .fmt_sprintf, .sprintf, .file_name, .file_stat, .file_position, .file_read_all, .file_read_bs, .file_read_buf, .file_write, .file_close_twice, .file_seek, .file_read_lines, .file_iter, .file_stdout_write, .gf_read, .gf_stat, .gf_seek, .gf_name, .os_exit, .os_exit_0, .os_exit_3, .os_exit_err, .os_exit_bad]
+def allOps : List Op := [.os_args, .os_chdir, .cd, .os_chdir_bad, .os_create, .os_create_bad, .os_current_user, .os_environ, .os_getenv, .getenv, .os_getenv_unset, .os_getenv_bad, .os_getpid, .os_getuid, .os_getwd, .os_hostname, .os_lookup_gid, .os_lookup_gid_missing, .os_lookup_group, .os_lookup_group_missing, .os_lookup_uid, .os_lookup_uid_missing, .os_lookup_user, .os_lookup_user_missing, .os_mkdir, .os_mkdir_perm, .os_mkdir_bad, .os_mkdir_all, .os_mkdir_all_perm, .os_mkdir_temp, .os_mkdir_temp_dir, .os_open, .bopen, .os_open_missing, .os_read_dir0, .os_read_dir, .ls0, .ls, .os_read_dir_missing, .os_read_file, .os_read_file_missing, .os_remove, .os_remove_missing, .os_remove_all, .os_rename, .os_rename_bad, .os_setenv, .setenv, .os_setenv_new, .os_stat, .os_stat_missing, .os_symlink, .os_temp_dir, .os_unsetenv, .unsetenv, .os_user_cache_dir, .os_user_config_dir, .os_user_home_dir, .os_write_file, .os_write_file_perm, .os_write_file_bytes, .os_write_file_over, .os_write_file_bad, .os_stdout_write, .os_stderr_write, .os_stdin_read, .os_stdout_attr, .cat, .cat1, .cat_missing, .cat_bad, .cp, .cp_over, .cp_missing, .fp_abs_rel, .fp_abs_abs, .fp_base, .fp_clean, .fp_dir, .fp_ext, .fp_is_abs, .fp_join, .fp_match, .fp_rel, .fp_split, .fp_split_list, .fp_walk_dir, .fp_walk_dir_missing, .fp_walk_dir_bad, .printf, .fmt_printf, .printf_bad, .print, .print0, .fmt_println, .fmt_errorf, .errorf, .fmt_sprintf, .sprintf, .file_name, .file_stat, .file_position, .file_read_all, .file_read_bs, .file_read_buf, .file_write, .file_close_twice, .file_seek, .file_read_lines, .file_iter, .file_stdout_write, .gf_read, .gf_stat, .gf_seek, .gf_name, .os_exit, .os_exit_0, .os_exit_3, .os_exit_err, .os_exit_bad, .sh_cd_star, .sh_cd_quest, .sh_cd_bracket, .sh_cd_env, .sh_cd_envb, .sh_cd_envhost, .sh_cd_tilde, .sh_cd_rel, .sh_ls_star, .sh_ls_quest, .sh_ls_bracket, .sh_ls_env, .sh_ls_envb, .sh_ls_envhost, .sh_ls_tilde, .sh_ls_rel, .sh_cat_star, .sh_cat_quest, .sh_cat_bracket, .sh_cat_env, .sh_cat_envb, .sh_cat_envhost, .sh_cat_tilde, .sh_cat_rel, .sh_cp_src_star, .sh_cp_src_quest, .sh_cp_src_bracket, .sh_cp_src_env, .sh_cp_src_envb, .sh_cp_src_envhost, .sh_cp_src_tilde, .sh_cp_src_rel, .sh_cp_dst_star, .sh_cp_dst_quest, .sh_cp_dst_bracket, .sh_cp_dst_env, .sh_cp_dst_envb, .sh_cp_dst_envhost, .sh_cp_dst_tilde, .sh_cp_dst_rel, .sh_bopen_star, .sh_bopen_quest, .sh_bopen_bracket, .sh_bopen_env, .sh_bopen_envb, .sh_bopen_envhost, .sh_bopen_tilde, .sh_bopen_rel, .sh_os_chdir_star, .sh_os_chdir_quest, .sh_os_chdir_bracket, .sh_os_chdir_env, .sh_os_chdir_envb, .sh_os_chdir_envhost, .sh_os_chdir_tilde, .sh_os_chdir_rel, .sh_os_read_dir_star, .sh_os_read_dir_quest, .sh_os_read_dir_bracket, .sh_os_read_dir_env, .sh_os_read_dir_envb, .sh_os_read_dir_envhost, .sh_os_read_dir_tilde, .sh_os_read_dir_rel, .sh_os_read_file_star, .sh_os_read_file_quest, .sh_os_read_file_bracket, .sh_os_read_file_env, .sh_os_read_file_envb, .sh_os_read_file_envhost, .sh_os_read_file_tilde, .sh_os_read_file_rel, .sh_os_open_star, .sh_os_open_quest, .sh_os_open_bracket, .sh_os_open_env, .sh_os_open_envb, .sh_os_open_envhost, .sh_os_open_tilde, .sh_os_open_rel, .sh_os_stat_star, .sh_os_stat_quest, .sh_os_stat_bracket, .sh_os_stat_env, .sh_os_stat_envb, .sh_os_stat_envhost, .sh_os_stat_tilde, .sh_os_stat_rel]
 
 def Op.name : Op → String
   | .os_args => "os_args"
@@ -237,6 +253,94 @@ def Op.name : Op → String
   | .os_exit_3 => "os_exit_3"
   | .os_exit_err => "os_exit_err"
   | .os_exit_bad => "os_exit_bad"
+  | .sh_cd_star => "sh_cd_star"
+  | .sh_cd_quest => "sh_cd_quest"
+  | .sh_cd_bracket => "sh_cd_bracket"
+  | .sh_cd_env => "sh_cd_env"
+  | .sh_cd_envb => "sh_cd_envb"
+  | .sh_cd_envhost => "sh_cd_envhost"
+  | .sh_cd_tilde => "sh_cd_tilde"
+  | .sh_cd_rel => "sh_cd_rel"
+  | .sh_ls_star => "sh_ls_star"
+  | .sh_ls_quest => "sh_ls_quest"
+  | .sh_ls_bracket => "sh_ls_bracket"
+  | .sh_ls_env => "sh_ls_env"
+  | .sh_ls_envb => "sh_ls_envb"
+  | .sh_ls_envhost => "sh_ls_envhost"
+  | .sh_ls_tilde => "sh_ls_tilde"
+  | .sh_ls_rel => "sh_ls_rel"
+  | .sh_cat_star => "sh_cat_star"
+  | .sh_cat_quest => "sh_cat_quest"
+  | .sh_cat_bracket => "sh_cat_bracket"
+  | .sh_cat_env => "sh_cat_env"
+  | .sh_cat_envb => "sh_cat_envb"
+  | .sh_cat_envhost => "sh_cat_envhost"
+  | .sh_cat_tilde => "sh_cat_tilde"
+  | .sh_cat_rel => "sh_cat_rel"
+  | .sh_cp_src_star => "sh_cp_src_star"
+  | .sh_cp_src_quest => "sh_cp_src_quest"
+  | .sh_cp_src_bracket => "sh_cp_src_bracket"
+  | .sh_cp_src_env => "sh_cp_src_env"
+  | .sh_cp_src_envb => "sh_cp_src_envb"
+  | .sh_cp_src_envhost => "sh_cp_src_envhost"
+  | .sh_cp_src_tilde => "sh_cp_src_tilde"
+  | .sh_cp_src_rel => "sh_cp_src_rel"
+  | .sh_cp_dst_star => "sh_cp_dst_star"
+  | .sh_cp_dst_quest => "sh_cp_dst_quest"
+  | .sh_cp_dst_bracket => "sh_cp_dst_bracket"
+  | .sh_cp_dst_env => "sh_cp_dst_env"
+  | .sh_cp_dst_envb => "sh_cp_dst_envb"
+  | .sh_cp_dst_envhost => "sh_cp_dst_envhost"
+  | .sh_cp_dst_tilde => "sh_cp_dst_tilde"
+  | .sh_cp_dst_rel => "sh_cp_dst_rel"
+  | .sh_bopen_star => "sh_bopen_star"
+  | .sh_bopen_quest => "sh_bopen_quest"
+  | .sh_bopen_bracket => "sh_bopen_bracket"
+  | .sh_bopen_env => "sh_bopen_env"
+  | .sh_bopen_envb => "sh_bopen_envb"
+  | .sh_bopen_envhost => "sh_bopen_envhost"
+  | .sh_bopen_tilde => "sh_bopen_tilde"
+  | .sh_bopen_rel => "sh_bopen_rel"
+  | .sh_os_chdir_star => "sh_os_chdir_star"
+  | .sh_os_chdir_quest => "sh_os_chdir_quest"
+  | .sh_os_chdir_bracket => "sh_os_chdir_bracket"
+  | .sh_os_chdir_env => "sh_os_chdir_env"
+  | .sh_os_chdir_envb => "sh_os_chdir_envb"
+  | .sh_os_chdir_envhost => "sh_os_chdir_envhost"
+  | .sh_os_chdir_tilde => "sh_os_chdir_tilde"
+  | .sh_os_chdir_rel => "sh_os_chdir_rel"
+  | .sh_os_read_dir_star => "sh_os_read_dir_star"
+  | .sh_os_read_dir_quest => "sh_os_read_dir_quest"
+  | .sh_os_read_dir_bracket => "sh_os_read_dir_bracket"
+  | .sh_os_read_dir_env => "sh_os_read_dir_env"
+  | .sh_os_read_dir_envb => "sh_os_read_dir_envb"
+  | .sh_os_read_dir_envhost => "sh_os_read_dir_envhost"
+  | .sh_os_read_dir_tilde => "sh_os_read_dir_tilde"
+  | .sh_os_read_dir_rel => "sh_os_read_dir_rel"
+  | .sh_os_read_file_star => "sh_os_read_file_star"
+  | .sh_os_read_file_quest => "sh_os_read_file_quest"
+  | .sh_os_read_file_bracket => "sh_os_read_file_bracket"
+  | .sh_os_read_file_env => "sh_os_read_file_env"
+  | .sh_os_read_file_envb => "sh_os_read_file_envb"
+  | .sh_os_read_file_envhost => "sh_os_read_file_envhost"
+  | .sh_os_read_file_tilde => "sh_os_read_file_tilde"
+  | .sh_os_read_file_rel => "sh_os_read_file_rel"
+  | .sh_os_open_star => "sh_os_open_star"
+  | .sh_os_open_quest => "sh_os_open_quest"
+  | .sh_os_open_bracket => "sh_os_open_bracket"
+  | .sh_os_open_env => "sh_os_open_env"
+  | .sh_os_open_envb => "sh_os_open_envb"
+  | .sh_os_open_envhost => "sh_os_open_envhost"
+  | .sh_os_open_tilde => "sh_os_open_tilde"
+  | .sh_os_open_rel => "sh_os_open_rel"
+  | .sh_os_stat_star => "sh_os_stat_star"
+  | .sh_os_stat_quest => "sh_os_stat_quest"
+  | .sh_os_stat_bracket => "sh_os_stat_bracket"
+  | .sh_os_stat_env => "sh_os_stat_env"
+  | .sh_os_stat_envb => "sh_os_stat_envb"
+  | .sh_os_stat_envhost => "sh_os_stat_envhost"
+  | .sh_os_stat_tilde => "sh_os_stat_tilde"
+  | .sh_os_stat_rel => "sh_os_stat_rel"
 
 /-- the Go function that implements the operation (key of the sink inventory) -/
 def Op.goFn : Op → String
@@ -360,6 +464,94 @@ def Op.goFn : Op → String
   | .os_exit_3 => "modules/os.Exit"
   | .os_exit_err => "modules/os.Exit"
   | .os_exit_bad => "modules/os.Exit"
+  | .sh_cd_star => "modules/os.Chdir"
+  | .sh_cd_quest => "modules/os.Chdir"
+  | .sh_cd_bracket => "modules/os.Chdir"
+  | .sh_cd_env => "modules/os.Chdir"
+  | .sh_cd_envb => "modules/os.Chdir"
+  | .sh_cd_envhost => "modules/os.Chdir"
+  | .sh_cd_tilde => "modules/os.Chdir"
+  | .sh_cd_rel => "modules/os.Chdir"
+  | .sh_ls_star => "modules/os.ReadDir"
+  | .sh_ls_quest => "modules/os.ReadDir"
+  | .sh_ls_bracket => "modules/os.ReadDir"
+  | .sh_ls_env => "modules/os.ReadDir"
+  | .sh_ls_envb => "modules/os.ReadDir"
+  | .sh_ls_envhost => "modules/os.ReadDir"
+  | .sh_ls_tilde => "modules/os.ReadDir"
+  | .sh_ls_rel => "modules/os.ReadDir"
+  | .sh_cat_star => "modules/os.Cat"
+  | .sh_cat_quest => "modules/os.Cat"
+  | .sh_cat_bracket => "modules/os.Cat"
+  | .sh_cat_env => "modules/os.Cat"
+  | .sh_cat_envb => "modules/os.Cat"
+  | .sh_cat_envhost => "modules/os.Cat"
+  | .sh_cat_tilde => "modules/os.Cat"
+  | .sh_cat_rel => "modules/os.Cat"
+  | .sh_cp_src_star => "modules/os.Copy"
+  | .sh_cp_src_quest => "modules/os.Copy"
+  | .sh_cp_src_bracket => "modules/os.Copy"
+  | .sh_cp_src_env => "modules/os.Copy"
+  | .sh_cp_src_envb => "modules/os.Copy"
+  | .sh_cp_src_envhost => "modules/os.Copy"
+  | .sh_cp_src_tilde => "modules/os.Copy"
+  | .sh_cp_src_rel => "modules/os.Copy"
+  | .sh_cp_dst_star => "modules/os.Copy"
+  | .sh_cp_dst_quest => "modules/os.Copy"
+  | .sh_cp_dst_bracket => "modules/os.Copy"
+  | .sh_cp_dst_env => "modules/os.Copy"
+  | .sh_cp_dst_envb => "modules/os.Copy"
+  | .sh_cp_dst_envhost => "modules/os.Copy"
+  | .sh_cp_dst_tilde => "modules/os.Copy"
+  | .sh_cp_dst_rel => "modules/os.Copy"
+  | .sh_bopen_star => "modules/os.Open"
+  | .sh_bopen_quest => "modules/os.Open"
+  | .sh_bopen_bracket => "modules/os.Open"
+  | .sh_bopen_env => "modules/os.Open"
+  | .sh_bopen_envb => "modules/os.Open"
+  | .sh_bopen_envhost => "modules/os.Open"
+  | .sh_bopen_tilde => "modules/os.Open"
+  | .sh_bopen_rel => "modules/os.Open"
+  | .sh_os_chdir_star => "modules/os.Chdir"
+  | .sh_os_chdir_quest => "modules/os.Chdir"
+  | .sh_os_chdir_bracket => "modules/os.Chdir"
+  | .sh_os_chdir_env => "modules/os.Chdir"
+  | .sh_os_chdir_envb => "modules/os.Chdir"
+  | .sh_os_chdir_envhost => "modules/os.Chdir"
+  | .sh_os_chdir_tilde => "modules/os.Chdir"
+  | .sh_os_chdir_rel => "modules/os.Chdir"
+  | .sh_os_read_dir_star => "modules/os.ReadDir"
+  | .sh_os_read_dir_quest => "modules/os.ReadDir"
+  | .sh_os_read_dir_bracket => "modules/os.ReadDir"
+  | .sh_os_read_dir_env => "modules/os.ReadDir"
+  | .sh_os_read_dir_envb => "modules/os.ReadDir"
+  | .sh_os_read_dir_envhost => "modules/os.ReadDir"
+  | .sh_os_read_dir_tilde => "modules/os.ReadDir"
+  | .sh_os_read_dir_rel => "modules/os.ReadDir"
+  | .sh_os_read_file_star => "modules/os.ReadFile"
+  | .sh_os_read_file_quest => "modules/os.ReadFile"
+  | .sh_os_read_file_bracket => "modules/os.ReadFile"
+  | .sh_os_read_file_env => "modules/os.ReadFile"
+  | .sh_os_read_file_envb => "modules/os.ReadFile"
+  | .sh_os_read_file_envhost => "modules/os.ReadFile"
+  | .sh_os_read_file_tilde => "modules/os.ReadFile"
+  | .sh_os_read_file_rel => "modules/os.ReadFile"
+  | .sh_os_open_star => "modules/os.Open"
+  | .sh_os_open_quest => "modules/os.Open"
+  | .sh_os_open_bracket => "modules/os.Open"
+  | .sh_os_open_env => "modules/os.Open"
+  | .sh_os_open_envb => "modules/os.Open"
+  | .sh_os_open_envhost => "modules/os.Open"
+  | .sh_os_open_tilde => "modules/os.Open"
+  | .sh_os_open_rel => "modules/os.Open"
+  | .sh_os_stat_star => "modules/os.Stat"
+  | .sh_os_stat_quest => "modules/os.Stat"
+  | .sh_os_stat_bracket => "modules/os.Stat"
+  | .sh_os_stat_env => "modules/os.Stat"
+  | .sh_os_stat_envb => "modules/os.Stat"
+  | .sh_os_stat_envhost => "modules/os.Stat"
+  | .sh_os_stat_tilde => "modules/os.Stat"
+  | .sh_os_stat_rel => "modules/os.Stat"
 
 /-- Impl: the OS-interface calls the operation's Go code makes, in order, with symbolic arguments
     (`$i` = i-th script argument, `@wd` = the directory the OS's own `Getwd` returned) -/
@@ -484,12 +676,214 @@ def Op.calls : Op → List Call
   | .os_exit_3 => [⟨.exit, ["3"]⟩]
   | .os_exit_err => [⟨.exit, ["1"]⟩]
   | .os_exit_bad => []
+  | .sh_cd_star => [⟨.chdir, ["$0"]⟩]
+  | .sh_cd_quest => [⟨.chdir, ["$0"]⟩]
+  | .sh_cd_bracket => [⟨.chdir, ["$0"]⟩]
+  | .sh_cd_env => [⟨.chdir, ["$0"]⟩]
+  | .sh_cd_envb => [⟨.chdir, ["$0"]⟩]
+  | .sh_cd_envhost => [⟨.chdir, ["$0"]⟩]
+  | .sh_cd_tilde => [⟨.chdir, ["$0"]⟩]
+  | .sh_cd_rel => [⟨.chdir, ["$0"]⟩]
+  | .sh_ls_star => [⟨.readDir, ["$0"]⟩]
+  | .sh_ls_quest => [⟨.readDir, ["$0"]⟩]
+  | .sh_ls_bracket => [⟨.readDir, ["$0"]⟩]
+  | .sh_ls_env => [⟨.readDir, ["$0"]⟩]
+  | .sh_ls_envb => [⟨.readDir, ["$0"]⟩]
+  | .sh_ls_envhost => [⟨.readDir, ["$0"]⟩]
+  | .sh_ls_tilde => [⟨.readDir, ["$0"]⟩]
+  | .sh_ls_rel => [⟨.readDir, ["$0"]⟩]
+  | .sh_cat_star => [⟨.readFile, ["$0"]⟩]
+  | .sh_cat_quest => [⟨.readFile, ["$0"]⟩]
+  | .sh_cat_bracket => [⟨.readFile, ["$0"]⟩]
+  | .sh_cat_env => [⟨.readFile, ["$0"]⟩]
+  | .sh_cat_envb => [⟨.readFile, ["$0"]⟩]
+  | .sh_cat_envhost => [⟨.readFile, ["$0"]⟩]
+  | .sh_cat_tilde => [⟨.readFile, ["$0"]⟩]
+  | .sh_cat_rel => [⟨.readFile, ["$0"]⟩]
+  | .sh_cp_src_star => [⟨.readFile, ["$0"]⟩, ⟨.writeFile, ["$1", "420"]⟩]
+  | .sh_cp_src_quest => [⟨.readFile, ["$0"]⟩, ⟨.writeFile, ["$1", "420"]⟩]
+  | .sh_cp_src_bracket => [⟨.readFile, ["$0"]⟩, ⟨.writeFile, ["$1", "420"]⟩]
+  | .sh_cp_src_env => [⟨.readFile, ["$0"]⟩, ⟨.writeFile, ["$1", "420"]⟩]
+  | .sh_cp_src_envb => [⟨.readFile, ["$0"]⟩, ⟨.writeFile, ["$1", "420"]⟩]
+  | .sh_cp_src_envhost => [⟨.readFile, ["$0"]⟩, ⟨.writeFile, ["$1", "420"]⟩]
+  | .sh_cp_src_tilde => [⟨.readFile, ["$0"]⟩]
+  | .sh_cp_src_rel => [⟨.readFile, ["$0"]⟩]
+  | .sh_cp_dst_star => [⟨.readFile, ["$0"]⟩, ⟨.writeFile, ["$1", "420"]⟩]
+  | .sh_cp_dst_quest => [⟨.readFile, ["$0"]⟩, ⟨.writeFile, ["$1", "420"]⟩]
+  | .sh_cp_dst_bracket => [⟨.readFile, ["$0"]⟩, ⟨.writeFile, ["$1", "420"]⟩]
+  | .sh_cp_dst_env => [⟨.readFile, ["$0"]⟩, ⟨.writeFile, ["$1", "420"]⟩]
+  | .sh_cp_dst_envb => [⟨.readFile, ["$0"]⟩, ⟨.writeFile, ["$1", "420"]⟩]
+  | .sh_cp_dst_envhost => [⟨.readFile, ["$0"]⟩, ⟨.writeFile, ["$1", "420"]⟩]
+  | .sh_cp_dst_tilde => [⟨.readFile, ["$0"]⟩, ⟨.writeFile, ["$1", "420"]⟩]
+  | .sh_cp_dst_rel => [⟨.readFile, ["$0"]⟩, ⟨.writeFile, ["$1", "420"]⟩]
+  | .sh_bopen_star => [⟨.open, ["$0"]⟩, ⟨.fClose, []⟩]
+  | .sh_bopen_quest => [⟨.open, ["$0"]⟩, ⟨.fClose, []⟩]
+  | .sh_bopen_bracket => [⟨.open, ["$0"]⟩, ⟨.fClose, []⟩]
+  | .sh_bopen_env => [⟨.open, ["$0"]⟩, ⟨.fClose, []⟩]
+  | .sh_bopen_envb => [⟨.open, ["$0"]⟩, ⟨.fClose, []⟩]
+  | .sh_bopen_envhost => [⟨.open, ["$0"]⟩, ⟨.fClose, []⟩]
+  | .sh_bopen_tilde => [⟨.open, ["$0"]⟩]
+  | .sh_bopen_rel => [⟨.open, ["$0"]⟩]
+  | .sh_os_chdir_star => [⟨.chdir, ["$0"]⟩]
+  | .sh_os_chdir_quest => [⟨.chdir, ["$0"]⟩]
+  | .sh_os_chdir_bracket => [⟨.chdir, ["$0"]⟩]
+  | .sh_os_chdir_env => [⟨.chdir, ["$0"]⟩]
+  | .sh_os_chdir_envb => [⟨.chdir, ["$0"]⟩]
+  | .sh_os_chdir_envhost => [⟨.chdir, ["$0"]⟩]
+  | .sh_os_chdir_tilde => [⟨.chdir, ["$0"]⟩]
+  | .sh_os_chdir_rel => [⟨.chdir, ["$0"]⟩]
+  | .sh_os_read_dir_star => [⟨.readDir, ["$0"]⟩]
+  | .sh_os_read_dir_quest => [⟨.readDir, ["$0"]⟩]
+  | .sh_os_read_dir_bracket => [⟨.readDir, ["$0"]⟩]
+  | .sh_os_read_dir_env => [⟨.readDir, ["$0"]⟩]
+  | .sh_os_read_dir_envb => [⟨.readDir, ["$0"]⟩]
+  | .sh_os_read_dir_envhost => [⟨.readDir, ["$0"]⟩]
+  | .sh_os_read_dir_tilde => [⟨.readDir, ["$0"]⟩]
+  | .sh_os_read_dir_rel => [⟨.readDir, ["$0"]⟩]
+  | .sh_os_read_file_star => [⟨.readFile, ["$0"]⟩]
+  | .sh_os_read_file_quest => [⟨.readFile, ["$0"]⟩]
+  | .sh_os_read_file_bracket => [⟨.readFile, ["$0"]⟩]
+  | .sh_os_read_file_env => [⟨.readFile, ["$0"]⟩]
+  | .sh_os_read_file_envb => [⟨.readFile, ["$0"]⟩]
+  | .sh_os_read_file_envhost => [⟨.readFile, ["$0"]⟩]
+  | .sh_os_read_file_tilde => [⟨.readFile, ["$0"]⟩]
+  | .sh_os_read_file_rel => [⟨.readFile, ["$0"]⟩]
+  | .sh_os_open_star => [⟨.open, ["$0"]⟩, ⟨.fClose, []⟩]
+  | .sh_os_open_quest => [⟨.open, ["$0"]⟩, ⟨.fClose, []⟩]
+  | .sh_os_open_bracket => [⟨.open, ["$0"]⟩, ⟨.fClose, []⟩]
+  | .sh_os_open_env => [⟨.open, ["$0"]⟩, ⟨.fClose, []⟩]
+  | .sh_os_open_envb => [⟨.open, ["$0"]⟩, ⟨.fClose, []⟩]
+  | .sh_os_open_envhost => [⟨.open, ["$0"]⟩, ⟨.fClose, []⟩]
+  | .sh_os_open_tilde => [⟨.open, ["$0"]⟩]
+  | .sh_os_open_rel => [⟨.open, ["$0"]⟩]
+  | .sh_os_stat_star => [⟨.stat, ["$0"]⟩]
+  | .sh_os_stat_quest => [⟨.stat, ["$0"]⟩]
+  | .sh_os_stat_bracket => [⟨.stat, ["$0"]⟩]
+  | .sh_os_stat_env => [⟨.stat, ["$0"]⟩]
+  | .sh_os_stat_envb => [⟨.stat, ["$0"]⟩]
+  | .sh_os_stat_envhost => [⟨.stat, ["$0"]⟩]
+  | .sh_os_stat_tilde => [⟨.stat, ["$0"]⟩]
+  | .sh_os_stat_rel => [⟨.stat, ["$0"]⟩]
 
 /-- the operation uses the file object `gf` opened by the top-level code of the script -/
 def Op.usesGF : Op → Bool
   | .gf_read | .gf_stat | .gf_seek | .gf_name => true
   | _ => false
 
+
+/-! ## Arguments with shell metacharacters
+
+The shell-style builtins (`cd`, `ls`, `cat`, `cp`, `open`) and the `os` functions they share their
+implementation with take their path arguments **literally**: a wildcard (`*`, `?`, `[..]`), a
+`$NAME` / `${NAME}` reference or a leading `~` is part of the name and reaches the host's OS
+unchanged.  (Expanding it would need a directory listing, an environment or a home directory —
+each of which would have to come from the host's OS.)  `shellOps` are the operations that pass
+such arguments; `Op.plain` is the operation of the same function with an ordinary argument. -/
+
+/-- the operations whose path argument contains shell metacharacters -/
+def shellOps : List Op := [.sh_cd_star, .sh_cd_quest, .sh_cd_bracket, .sh_cd_env, .sh_cd_envb, .sh_cd_envhost, .sh_cd_tilde, .sh_cd_rel, .sh_ls_star, .sh_ls_quest, .sh_ls_bracket, .sh_ls_env, .sh_ls_envb, .sh_ls_envhost, .sh_ls_tilde, .sh_ls_rel, .sh_cat_star, .sh_cat_quest, .sh_cat_bracket, .sh_cat_env, .sh_cat_envb, .sh_cat_envhost, .sh_cat_tilde, .sh_cat_rel, .sh_cp_src_star, .sh_cp_src_quest, .sh_cp_src_bracket, .sh_cp_src_env, .sh_cp_src_envb, .sh_cp_src_envhost, .sh_cp_src_tilde, .sh_cp_src_rel, .sh_cp_dst_star, .sh_cp_dst_quest, .sh_cp_dst_bracket, .sh_cp_dst_env, .sh_cp_dst_envb, .sh_cp_dst_envhost, .sh_cp_dst_tilde, .sh_cp_dst_rel, .sh_bopen_star, .sh_bopen_quest, .sh_bopen_bracket, .sh_bopen_env, .sh_bopen_envb, .sh_bopen_envhost, .sh_bopen_tilde, .sh_bopen_rel, .sh_os_chdir_star, .sh_os_chdir_quest, .sh_os_chdir_bracket, .sh_os_chdir_env, .sh_os_chdir_envb, .sh_os_chdir_envhost, .sh_os_chdir_tilde, .sh_os_chdir_rel, .sh_os_read_dir_star, .sh_os_read_dir_quest, .sh_os_read_dir_bracket, .sh_os_read_dir_env, .sh_os_read_dir_envb, .sh_os_read_dir_envhost, .sh_os_read_dir_tilde, .sh_os_read_dir_rel, .sh_os_read_file_star, .sh_os_read_file_quest, .sh_os_read_file_bracket, .sh_os_read_file_env, .sh_os_read_file_envb, .sh_os_read_file_envhost, .sh_os_read_file_tilde, .sh_os_read_file_rel, .sh_os_open_star, .sh_os_open_quest, .sh_os_open_bracket, .sh_os_open_env, .sh_os_open_envb, .sh_os_open_envhost, .sh_os_open_tilde, .sh_os_open_rel, .sh_os_stat_star, .sh_os_stat_quest, .sh_os_stat_bracket, .sh_os_stat_env, .sh_os_stat_envb, .sh_os_stat_envhost, .sh_os_stat_tilde, .sh_os_stat_rel]
+
+/-- the operation of the same Go function and outcome with an ordinary path argument -/
+def Op.plain : Op → Op
+  | .sh_cd_star => .cd
+  | .sh_cd_quest => .cd
+  | .sh_cd_bracket => .cd
+  | .sh_cd_env => .cd
+  | .sh_cd_envb => .cd
+  | .sh_cd_envhost => .cd
+  | .sh_cd_tilde => .cd
+  | .sh_cd_rel => .cd
+  | .sh_ls_star => .ls
+  | .sh_ls_quest => .ls
+  | .sh_ls_bracket => .ls
+  | .sh_ls_env => .ls
+  | .sh_ls_envb => .ls
+  | .sh_ls_envhost => .ls
+  | .sh_ls_tilde => .ls
+  | .sh_ls_rel => .ls
+  | .sh_cat_star => .cat1
+  | .sh_cat_quest => .cat1
+  | .sh_cat_bracket => .cat1
+  | .sh_cat_env => .cat1
+  | .sh_cat_envb => .cat1
+  | .sh_cat_envhost => .cat1
+  | .sh_cat_tilde => .cat1
+  | .sh_cat_rel => .cat1
+  | .sh_cp_src_star => .cp
+  | .sh_cp_src_quest => .cp
+  | .sh_cp_src_bracket => .cp
+  | .sh_cp_src_env => .cp
+  | .sh_cp_src_envb => .cp
+  | .sh_cp_src_envhost => .cp
+  | .sh_cp_src_tilde => .cp_missing
+  | .sh_cp_src_rel => .cp_missing
+  | .sh_cp_dst_star => .cp
+  | .sh_cp_dst_quest => .cp
+  | .sh_cp_dst_bracket => .cp
+  | .sh_cp_dst_env => .cp
+  | .sh_cp_dst_envb => .cp
+  | .sh_cp_dst_envhost => .cp
+  | .sh_cp_dst_tilde => .cp
+  | .sh_cp_dst_rel => .cp
+  | .sh_bopen_star => .bopen
+  | .sh_bopen_quest => .bopen
+  | .sh_bopen_bracket => .bopen
+  | .sh_bopen_env => .bopen
+  | .sh_bopen_envb => .bopen
+  | .sh_bopen_envhost => .bopen
+  | .sh_bopen_tilde => .os_open_missing
+  | .sh_bopen_rel => .os_open_missing
+  | .sh_os_chdir_star => .os_chdir
+  | .sh_os_chdir_quest => .os_chdir
+  | .sh_os_chdir_bracket => .os_chdir
+  | .sh_os_chdir_env => .os_chdir
+  | .sh_os_chdir_envb => .os_chdir
+  | .sh_os_chdir_envhost => .os_chdir
+  | .sh_os_chdir_tilde => .os_chdir
+  | .sh_os_chdir_rel => .os_chdir
+  | .sh_os_read_dir_star => .os_read_dir
+  | .sh_os_read_dir_quest => .os_read_dir
+  | .sh_os_read_dir_bracket => .os_read_dir
+  | .sh_os_read_dir_env => .os_read_dir
+  | .sh_os_read_dir_envb => .os_read_dir
+  | .sh_os_read_dir_envhost => .os_read_dir
+  | .sh_os_read_dir_tilde => .os_read_dir
+  | .sh_os_read_dir_rel => .os_read_dir
+  | .sh_os_read_file_star => .os_read_file
+  | .sh_os_read_file_quest => .os_read_file
+  | .sh_os_read_file_bracket => .os_read_file
+  | .sh_os_read_file_env => .os_read_file
+  | .sh_os_read_file_envb => .os_read_file
+  | .sh_os_read_file_envhost => .os_read_file
+  | .sh_os_read_file_tilde => .os_read_file
+  | .sh_os_read_file_rel => .os_read_file
+  | .sh_os_open_star => .os_open
+  | .sh_os_open_quest => .os_open
+  | .sh_os_open_bracket => .os_open
+  | .sh_os_open_env => .os_open
+  | .sh_os_open_envb => .os_open
+  | .sh_os_open_envhost => .os_open
+  | .sh_os_open_tilde => .os_open_missing
+  | .sh_os_open_rel => .os_open_missing
+  | .sh_os_stat_star => .os_stat
+  | .sh_os_stat_quest => .os_stat
+  | .sh_os_stat_bracket => .os_stat
+  | .sh_os_stat_env => .os_stat
+  | .sh_os_stat_envb => .os_stat
+  | .sh_os_stat_envhost => .os_stat
+  | .sh_os_stat_tilde => .os_stat
+  | .sh_os_stat_rel => .os_stat
+  | o => o
+
+/-- a concrete call: the symbolic arguments `$0`, `$1` replaced by the strings the script passed -/
+def instArg (p q : String) (s : String) : String :=
+  if s = "$0" then p else if s = "$1" then q else s
+
+def Call.inst (p q : String) (c : Call) : Call := { c with args := c.args.map (instArg p q) }
+
+/-- Spec for one concrete call of a path operation: every argument the OS receives is one of the two
+    strings the script passed, or the default file mode -/
+def Call.verbatim (p q : String) (c : Call) : Prop := ∀ x ∈ c.args, x = p ∨ x = q ∨ x = "420"
 
 /-! ## Sink inventory (E9) -/
 
